@@ -24,6 +24,7 @@ EXPLANATION = (
     "code of its field group; the dispatch is dominated by a non-negative validation result of the "
     "same request; in _sign the device calls are dominated by the second-stage checks and by the "
     "completed transaction decoding; validators and the gate cannot reach any device exchange; both "
+    "a path element denotes int(s) or 2^31 + int(s) (quoted), is accepted iff decimal and below 2^31 and rejected for nothing else (decision table of BIP32Element), the elements of a path are the pieces of its text as they are; "
     "mapping tables cover exactly the documented commands with implemented methods. Does not "
     "decide the json module's parsing nor predicate forms outside the atom normaliser (those end "
     "the run with ANALYSIS-ERROR, not with a verdict)."
